@@ -169,6 +169,21 @@ def r20_4b(ck, F):
                   f"a change notification of the keep flag (Provider::keep) releases the stored value: path {p1}", k.loc(arm["target"]))
         ck.expect(p2 is None, "Handle::serialize#release-needs-not-kept", "remove(id) after keep_rx.changed() only if keep is false",
                   f"a dropped provider releases the value although it was kept: path {p2}", k.loc(arm["target"]))
+    # ... and the converse: a provider dropped without keep() does release the value (C20: "released once ... its
+    # provider is dropped"): the changed() arm exists and its provider-dropped outcome can reach remove(id) without another wait
+    released = False
+    for s, arm in changed_arms:
+        region = k.reach([arm["target"]], avoid=[s["poll_bb"]])
+        is_err = [tb for sb, tb, m, e in switch_edges(k, lambda e: bool(mir.calls_in(e, "std::result::Result::is_err")), region) if m is True] + \
+                 [tb for sb, tb, m, e in switch_edges(k, lambda e: bool(mir.calls_in(e, "std::result::Result::is_ok")), region) if m is False] + \
+                 [tb for sb, tb, m, e in switch_edges(k, lambda e: e[0] == "discr" and "changed" in mir.show(e), region) if m == "Err"]
+        for tb in is_err:
+            if k.find_path([tb], rm, avoid=[s["poll_bb"]] + [a["poll_bb"] for a in k.awaits() if a.get("poll_bb") is not None]) is not None:
+                released = True
+    ck.expect(released, "Handle::serialize#provider-drop-releases",
+              "the provider-dropped outcome of keep_rx.changed() leads to remove(id)",
+              "the watcher task never releases the stored value when the provider is dropped without keep(): no path from the Err "
+              "outcome of keep_rx.changed() to handle_storage.remove(id)", k.loc(0))
     p0 = k.find_path([0], rm, avoid=list(gates) + [arm["target"] for _, arm in changed_arms])
     ck.expect(p0 is None, "Handle::serialize#release-only-after-wait", "no path to remove(id) that bypasses both waits",
               f"the watcher task releases the value without waiting: path {p0}", k.loc(0))
